@@ -370,6 +370,13 @@ func (f *Frame) val(v ssa.Value) Term {
 		return c.constTerm(v)
 	case *ssa.Function:
 		t := c.constNamed("fn_"+v.String(), SInt)
+		if !c.fnNonNil[t.S] {
+			if c.fnNonNil == nil {
+				c.fnNonNil = map[string]bool{}
+			}
+			c.fnNonNil[t.S] = true
+			c.assume(app(SBool, "<", intLit(0), t), false)
+		}
 		return t
 	case *ssa.Global:
 		return c.constNamed("gaddr_"+v.String(), SInt)
@@ -1338,6 +1345,17 @@ func (f *Frame) backEdge(p, h *ssa.BasicBlock, st *State, cond Term) {
 			continue
 		}
 		c.oblige("inv-preserve", name, cond, t, f.pos(p.Instrs[len(p.Instrs)-1]))
+	}
+	for _, cc := range lc.Continues {
+		env := f.envAtHeader(st, h, vals)
+		env.res = f.resLookup
+		t, err := env.evalBool(cc.E)
+		name := fmt.Sprintf("%s#loop%d:continue:%s", shortFn(f.fn), ord, cc.Name)
+		if err != nil {
+			c.oblige("error", name, cond, tFalse, "contract error: "+err.Error())
+			continue
+		}
+		c.oblige("loop-continue", name, cond, t, f.pos(p.Instrs[len(p.Instrs)-1]))
 	}
 	if lc.Decreases != nil {
 		envH := f.envAtHeader(st, h, f.hdrState[h].phis)
